@@ -27,7 +27,7 @@ BOUND = "(a) 300 (quick) / 3000 (thorough) configs <= 7 states; (b) exhaustive o
 
 def cases(tier, seed):
     n = 300 if tier == "quick" else 3000
-    for c in M.gen_cases(seed * 15487469 + 43, n, features={"parallel": 0.3, "after": 0.2, "history": 0.25}):
+    for c in M.gen_cases(seed * 15487469 + 43, n, features={"parallel": 0.3, "after": 0.2, "history": 0.25, "always": 0.0, "raise": 0.0}):
         for style in ("functional", "class", "builder"):
             yield {"mode": "api", "style": style, "config": c["config"], "events": c["events"], "kinds": {}}
     names = ["doThing", "isReady", "fetchData", "leafOne", "leafTwo", "notifyAll"]
